@@ -609,9 +609,23 @@ func (exec *Executor) executeDecimalMethod(
 		}
 	}
 
-	// Round to the scale.
-	ratio := math.Pow10(scale)
-	rounded := math.Round(num*ratio) / ratio
+	// Round to the scale. A scale so large that ratio or num*ratio overflows
+	// is beyond the precision of num, which is then already rounded to it;
+	// one so small that ratio underflows rounds everything to zero.
+	rounded := num
+	switch ratio := math.Pow10(scale); {
+	case ratio == 0:
+		rounded = 0
+	case !math.IsInf(ratio, 0) && !math.IsInf(num*ratio, 0):
+		rounded = math.Round(num*ratio) / ratio
+	}
+
+	if math.IsInf(rounded, 0) || math.IsNaN(rounded) {
+		return 0, fmt.Errorf(
+			`%w: argument "%v" of jsonpath item method %v is invalid for type %v`,
+			ErrVerbose, value, op, "numeric",
+		)
+	}
 
 	// Count the digits before the decimal point.
 	numStr := strconv.FormatFloat(rounded, 'f', -1, 64)
